@@ -249,8 +249,13 @@ impl Giant {
             (V::Reject, Err(Caught::Panic(_))) => self.stats.rejected += 1,
             (_, Err(Caught::Fault(_))) => unreachable!("no faults are armed in giant runs"),
         }
-        if let Err((k, d)) = self.audit() {
-            return Err(self.viol(k, d, step));
+        // the observers themselves may panic (e.g. overflowing size arithmetic): that is a finding
+        let (audit, _, _): (_, [u32; N_KINDS], bool) = guarded(None, || self.audit());
+        match audit {
+            Ok(Ok(())) => {}
+            Ok(Err((k, d))) => return Err(self.viol(k, d, step)),
+            Err(Caught::Panic(m)) => return Err(self.viol("audit_panic", format!("reading the array panicked: {} (size ({},{}))", m, self.c, self.r), step)),
+            Err(Caught::Fault(_)) => unreachable!(),
         }
         if self.c > (1 << 40) || self.r > (1 << 40) {
             self.stats.probe("giant_shape_step");
